@@ -139,7 +139,7 @@ impl<'c> E1<'c> {
     fn digest_events(&mut self, evs: &[Ev]) {
         let mut h = self.out.digest;
         for e in evs {
-            h = hash_str(h, &format!("{e:?}"));
+            h = e.digest(h);
         }
         self.out.digest = h;
     }
